@@ -322,6 +322,9 @@ class PlanJoinTablesQuery:
         # workaround for 'model join table': swap tables:
         if len(join_sequence) == 3 and join_sequence[0].predictor_info is not None:
             join_sequence = [join_sequence[1], join_sequence[0], join_sequence[2]]
+            # the ON clause now belongs to the model (the second element)
+            join_sequence[1].join_condition = join_sequence[0].join_condition
+            join_sequence[0].join_condition = None
 
         self.check_use_limit(query_in, join_sequence)
 
